@@ -2024,6 +2024,12 @@ func (h *handler) waitForFetchData(ctx context.Context, topic string, partition 
 }
 
 func (h *handler) ensureTopic(ctx context.Context, topic string, partition int32) error {
+	// The partition index comes straight from the request. An index no topic
+	// can have must not be used to size a new topic (partition+1 would also
+	// overflow for the largest index); the partition simply does not exist.
+	if partition >= metadata.MaxTopicPartitions {
+		return metadata.ErrUnknownTopic
+	}
 	desired := int32(h.autoCreatePartitions)
 	if desired < partition+1 {
 		desired = partition + 1
